@@ -130,7 +130,12 @@ package backends
 //@   before_call Bucket#1 [same_bucket] arg1 == gcs.bucketName
 //@   before_call Object#1 [same_object] arg1 == ite(gcs.prefix == "", gcs.workspacePrefix, gcs.prefix + "/" + gcs.workspacePrefix) + "/" + trimChars(path, "/") + "/" + trimChars(key, "/")
 
+// C08: as for S3, an object is reported present only if the store answered the metadata request for it successfully; a
+// denied or failed request is an error (or "absent" for not-found), never "exists"
 //@ func (*GCSCache).Exists(gcs, ctx, path, key) (r, err)
+//@   modifies gcsAttrsCalls, gcsLastAttrsOK
+//@   ensures [present_only_if_the_store_said_so] gcsAttrsCalls == old(gcsAttrsCalls) + 1 && (r ==> gcsLastAttrsOK && err == nil)
+//@   ensures [found_is_reported] gcsLastAttrsOK ==> r && err == nil
 //@   before_call Bucket#1 [same_bucket] arg1 == gcs.bucketName
 //@   before_call Object#1 [same_object] arg1 == ite(gcs.prefix == "", gcs.workspacePrefix, gcs.prefix + "/" + gcs.workspacePrefix) + "/" + trimChars(path, "/") + "/" + trimChars(key, "/")
 
